@@ -124,7 +124,7 @@ func runC14(run *common.Run) {
 	run.Rule = "case = one program on one engine: 40-120 admin and data requests over 2 parents (one a string prefix of the other) x 3 table ids: CreateTable with families and GC rules, DeleteTable, re-create, ModifyColumnFamilies with 1-4 modifications (create/update/drop, a failing one at any position, create-then-drop and drop-then-create of one id), DropRowRange (12 prefixes incl. empty, whole keys, ...\\xff, no match; delete-all), MutateRow. After EVERY request: ListTables per parent, GetTable + full scan of every live table, NotFound probes (GetTable, MutateRow, ReadRows) on every non-existent name, all compared with a registry + data model. Non-trivial = program contained at least three of: a failed multi-modification request, a family drop that removed cells, a prefix drop that removed some but not all rows, a delete-and-re-create of a table (each counted separately in 'observed'); distinct by program x engine."
 	run.Assumptions = []string{"DropRowRange with an empty prefix may be rejected or remove every row", "ModifyColumnFamilies error codes are not compared (any non-OK), CreateTable on an existing table must be AlreadyExists, requests on missing tables NotFound"}
 	j := common.NewJournal("C14")
-	nprog := run.N(150, 3000)
+	nprog := run.N(150, 1500)
 	common.Parallel(nprog*3, workers(), func(i int) {
 		prog, engine := i/3, drive.Engines[i%3]
 		if !run.Want("prog", i) || run.TooMany() {
